@@ -98,6 +98,26 @@ def c05_magic(ctx, case):
     c05_grid(ctx, case)
 
 
+# ---- very long grids -------------------------------------------------------------------------------------------------------
+@st.composite
+def bigfft_case(draw):
+    row = draw(st.sampled_from(MAGIC_ROWS + ("Periodogram", "pcorrelogram", "mtm_unity")))
+    cplx = draw(st.booleans())
+    x = draw(gen.signal(n=draw(st.integers(64, 256)), dtype="complex" if cplx else "real", kinds=("tones", "tones", "ar", "noise"),
+                        noise_levels=(0.003, 0.01, 0.1), units=False))     # (no noiseless kind: a pole on the circle makes 1/psi rounding noise)
+    x = est.sanitize(row, x)
+    p = draw(est.params(row, x["n"], cplx))
+    pair = draw(st.sampled_from([[16384, 2], [32768, 2], [10923, 3], [8192, 4], [21845, 3]]))
+    return {"row": row, "x": x, "params": p, "nfft": pair[0], "c": pair[1]}
+
+
+@sub("C05.bigfft", strategy=bigfft_case(), quick=150, thorough=1500,
+     doc="grids of 8192 .. 65536 points (pairs straddling 2**15): same clauses as C05.grid; a transform that switches precision or "
+         "algorithm at a size threshold is only seen here")
+def c05_bigfft(ctx, case):
+    c05_grid(ctx, case)
+
+
 # ---- functional pmtm: tapers and eigenvalues do not depend on NFFT ---------
 @st.composite
 def taper_case(draw):
